@@ -357,7 +357,7 @@ pub mod mach2 {
                 let ps = w.page_size;
                 let a0 = addr & !(ps - 1);
                 let a1 = (addr + size + ps - 1) & !(ps - 1);
-                let r = w.sys_mprotect(a0, a1 - a0, prot & 7);
+                let r = w.sys_mprotect_opt(a0, a1 - a0, prot & 7, false);
                 if r == 0 {
                     0
                 } else {
